@@ -72,6 +72,44 @@ def run(ctx):
     if not q:
         batches += [("deep", "reorg,crash,pingpong", 36, 44, 30, 1), ("raw5", "rawdb", 6, 40, 40, 2)]
     stats = []
+    feat = {}
+
+    def note(name, hit):
+        f = feat.setdefault(name, [0, 0])
+        f[0] += 1
+        f[1] += 1 if hit else 0
+
+    def features(e):
+        hit = bool(e["res"])
+        if e["k"] == "E":
+            tps = [t for c in e["crit"] for t in c["tp"] if t]
+            if any(c["tp"][4] for c in e["crit"]):
+                note("criterion on topic4 (5 topics)", hit)
+            if any(not any(t) for t in tps):
+                note("all-zero topic criterion", hit)
+            if any(any(t) and t[0] == 0 for t in tps):
+                note("leading-zero topic criterion", hit)
+            if any(c["a"] != "nil" for c in e["crit"]):
+                note("address criterion", hit)
+        else:
+            for fld, nm in (("o", "txOrigin"), ("s", "sender"), ("r", "recipient")):
+                if any(c[fld] != "nil" for c in e["crit"]):
+                    note(nm + " criterion", hit)
+        if len(e["crit"]) > 1:
+            note("OR of several criteria", hit)
+        if e["range"] and e["range"][0] > e["range"][1]:
+            note("inverted range", hit)
+        if e["err"]:
+            note("range beyond 28 bits (error expected)", hit)
+        if e["opt"] and e["opt"][0] >= 2000000000:
+            note("huge offset", hit)
+        if e["opt"] and e["opt"][1] == 0:
+            note("limit 0", hit)
+        if e["opt"] and e["order"] == "desc":
+            note("desc with offset/limit", hit)
+        if not e["opt"]:
+            note("no options", hit)
+
     for label, scen, runs, blocks, queries, off in batches:
         per = 12
         for b0 in range(0, runs, per):
@@ -82,6 +120,10 @@ def run(ctx):
                 continue
             stats += st
             lc.validate(ctx, cfg, streams, "%s-%d" % (label, b0), dict(scen=scen, runs=n, blocks=blocks, queries=queries, seed=seed))
+            for s in streams:
+                for e in s:
+                    if e["e"] == "Q":
+                        features(e)
             for s in streams[:1]:
                 imp = [e for e in s if e["e"] == "Import" and e["trunk"]]
                 qs = [e for e in s if e["e"] == "Q" and e["res"]]
@@ -105,6 +147,7 @@ def run(ctx):
     ctx.cov["filter_queries"] = tot("queries")
     ctx.cov["filter_queries_nonempty"] = tot("queryHits")
     ctx.cov["api_calls"] = tot("apiCalls")
+    ctx.cov["filter_query_features_total_and_nonempty"] = {k: "%d / %d" % (v[0], v[1]) for k, v in sorted(feat.items())}
     ctx.cov["five_topic_rows"] = tot("fiveTopics") if stats and "fiveTopics" in stats[0] else tot("fiveTopicRows")
     ctx.cov["largest_table"] = max([s["maxRows"] for s in stats] or [0])
     ctx.cov["exhaustive"] = False
